@@ -40,7 +40,7 @@ inline long long RowLegalizer::getDisplacement(int width, int targetPos,
       std::min(end_ - usedSpace() - width,
                std::max(begin_, slope >= 0 ? cur_pos : targetAbsPos));
 
-  cur_cost += (cur_pos - finalAbsPos) * (slope + width);
+  cur_cost += static_cast<long long>(cur_pos - finalAbsPos) * (slope + width);
 
   assert(finalAbsPos >= begin_);
   assert(finalAbsPos <= end_ - usedSpace() - width);
@@ -62,9 +62,10 @@ inline long long RowLegalizer::getDisplacement(int width, int targetPos,
     }
   }
 
-  return cur_cost +
-         width * std::abs(finalAbsPos -
-                          targetAbsPos);  // Add the cost of the new cell
+  // Add the cost of the new cell
+  return cur_cost + static_cast<long long>(width) *
+                        std::abs(static_cast<long long>(finalAbsPos) -
+                                 static_cast<long long>(targetAbsPos));
 }
 
 long long RowLegalizer::getCost(int width, int targetPos) {
